@@ -6,6 +6,7 @@ import (
 	"crypto/md5"
 	"fmt"
 	"net"
+	"strings"
 	"sync"
 	"time"
 
@@ -427,6 +428,11 @@ func addMessageAuthenticator(packet *radius.Packet, secret []byte) error {
 
 // formatMAC formats a MAC address for RADIUS (uppercase with dashes)
 func formatMAC(mac net.HardwareAddr) string {
+	// The address comes from the network (e.g. DHCP chaddr with an arbitrary
+	// hlen): anything that is not 6 bytes is formatted byte by byte
+	if len(mac) != 6 {
+		return strings.ToUpper(strings.ReplaceAll(mac.String(), ":", "-"))
+	}
 	return fmt.Sprintf("%02X-%02X-%02X-%02X-%02X-%02X",
 		mac[0], mac[1], mac[2], mac[3], mac[4], mac[5])
 }
